@@ -60,7 +60,10 @@ def build_overlay():
                     rel = os.path.relpath(os.path.join(root, f), inj)
                     repl[os.path.join(REPO, rel)] = os.path.join(root, f)
     os.makedirs(CACHE, exist_ok=True)
-    p = os.path.join(CACHE, "overlay.json")
+    # one file per target repo: the replacement paths depend on REPO, and several checks (some with
+    # VERIF_REPO pointing at a scratch worktree) may run at the same time
+    name = "overlay.json" if REPO == "/repo" else "overlay-%s.json" % hashlib.sha1(REPO.encode()).hexdigest()[:10]
+    p = os.path.join(CACHE, name)
     tmp = p + ".%d" % os.getpid()
     with open(tmp, "w") as fh:
         json.dump({"Replace": repl}, fh, indent=1)
@@ -71,7 +74,8 @@ def build_overlay():
 def go_build(comp, race=False):
     ov = build_overlay()
     os.makedirs(os.path.join(CACHE, "bin"), exist_ok=True)
-    out = os.path.join(CACHE, "bin", "vh_" + comp + ("_race" if race else ""))
+    suffix = "" if REPO == "/repo" else "-" + hashlib.sha1(REPO.encode()).hexdigest()[:10]
+    out = os.path.join(CACHE, "bin", "vh_" + comp + ("_race" if race else "") + suffix)
     cmd = ["go", "build", "-tags", "verif", "-overlay", ov, "-o", out]
     if race:
         cmd.append("-race")
@@ -339,7 +343,7 @@ def generic_check(spec, prop, tier, seed, replay):
     t0 = time.time()
     comp = spec["component"]
     module = spec["props_module"]
-    workdir = os.path.join(CACHE, "run", prop)
+    workdir = os.path.join(CACHE, "run", prop + ("" if REPO == "/repo" else "-" + hashlib.sha1(REPO.encode()).hexdigest()[:10]))
     shutil.rmtree(workdir, ignore_errors=True)
     os.makedirs(workdir, exist_ok=True)
     known = load_known()
